@@ -11,7 +11,11 @@ under one name, and the conversion-related kinds (char pointer / std::string / b
 bool, integer widths, float / double, enum / int) as complete sets, every variant of every member
 called (exhaustive BFS), and (3) simulated call sequences over small libraries in which every
 wrapper variant is called at least twice on different objects / arguments, checking the model
-invariants in every state, and dumps every complete behaviour with the expected result and the
+invariants in every state.  The alphabets include scoped enumerations with explicit underlying
+types (char, long long) as parameters / results / data members, `const std::string *` parameters,
+array data members (int[3], float[2]: setter; an array of objects: getter), compound-assignment
+operators returning *this, an int or an object by value, and  int &operator [](K)  (exported as the
+item-assignment wrapper).  TLC dumps every complete behaviour with the expected result and the
 state (st, bst, payload) of EVERY live object - `this`, arguments, bystanders - after every step.
 
 Replay: the libraries are packed into class families and rendered (vf/wraplib.py) to one header +
@@ -90,17 +94,36 @@ def uses_string(b, fns):
             s = fns[st["gid"]].sig
             # without -string neither back-end accepts char pointers or std::string (TypeManager::is_pointer
             # wants a pointable target): functions using them get no wrapper by design
-            if set(s["ps"] + [s["ret"]]) & {"string", "cstr"}:
+            if set(s["ps"] + [s["ret"]]) & {"string", "cstr", "strPtr"}:
                 return True
     return False
 
 
 # ---- finding classes: predicates over the INPUT (option set, signature, arguments) --------
 def classes_of(opt, st, fns):
-    """known-finding classes of one step: predicates over the INPUT (option set, signature, arguments) only.
-    Every disagreement found while this check was built was small enough for a `fix:` patch
-    (patches/c01-fix-1..4.diff), so no class is registered at present."""
-    return []
+    """known-finding classes of one step: predicates over the INPUT (option set, signature, arguments) only"""
+    out = []
+    if st["op"] not in ("new", "call"):
+        return out
+    s = fns[st["gid"]].sig
+    if s["fk"] == "opAsg" and s["ret"] != "objRef":
+        out.append("C01-assignment-operator-result-replaced-by-this")
+    if opt["backend"] == "python":
+        for k, a in zip(st["kinds"], st["args"]):
+            if k == "enumLL" and not -2147483648 <= a <= 2147483647:
+                out.append("C01-python-enum64-parameter-through-int")
+    return out
+
+
+def batch_classes(opt, features):
+    """known-finding classes of a whole batch (a wrapper file that does not compile): predicates over the library's
+    contents (wraplib.lib_features) and the option set"""
+    out = []
+    if "arr" in features and opt["backend"] == "python":
+        out.append("C01-python-array-parameter-not-compilable")
+    if "arrobj" in features:
+        out.append("C01-class-array-member-getter-not-compilable")
+    return out
 
 
 def call_text(st, fns):
@@ -110,6 +133,8 @@ def call_text(st, fns):
         om = " [%d default(s) omitted]" % st["k"] if st["k"] else ""
         if st["op"] == "new":
             return "new %s(%s)%s" % (fn.cxxcls, a, om)
+        if fn.sig["fk"] in ("getter", "setter"):
+            return "obj%d.%s %s  // published data member" % (st["this"], fn.cname, "= " + a if fn.sig["fk"] == "setter" else "(read)")
         tgt = "obj%d." % st["this"] if st.get("this") else ""
         return "%s%s(%s)%s   // %s" % (tgt, fn.scoped if not st.get("this") else fn.cname, a, om, W.declaration(fn))
     if st["op"] == "copy":
@@ -175,7 +200,7 @@ class BatchRun:
             for i, (st, e) in enumerate(zip(x["steps"], x["expect"])):
                 r = nat.get((x["b"], i))
                 want = e["ret"]
-                if st["op"] == "call" and st["fk"] == "setter":
+                if st["op"] == "call" and st["fk"] in ("setter", "opIndexRef"):
                     want = None
                 if r is None or r["ret"] != want or r["post"] != e["post"]:
                     raise MachineryError("spec != native C++ at step %d of behaviour %d: %s\n spec  %r\n native %r" % (
@@ -279,9 +304,16 @@ def judge(ctx, br, res, stats):
     opt = res["opt"]
     tag = opt["id"]
     fns = br.fns
+    bcls = batch_classes(opt, br.b.features)
+    for c in bcls:
+        m = stats["prec"].setdefault(c, [0, 0])
+        m[1] += 1
+        m[0] += bool(res["fatal"])
     if res["fatal"]:
-        ctx.violation("[%s] batch %d: %s" % (tag, res["batch"], res["fatal"]),
-                      dict(optset=tag, args=opt["args"], error=res["fatal"], stat_key=tag + " fatal"))
+        ctx.violation("[%s] batch %d %s: %s" % (tag, res["batch"], sorted(br.b.features), res["fatal"]),
+                      dict(optset=tag, args=opt["args"], error=res["fatal"], features=sorted(br.b.features),
+                           header=os.path.join(br.dir, "prom" if opt["promiscuous"] else "pub", "lib%d.h" % br.n),
+                           stat_key=tag + " fatal"), classes=bcls)
         return 0
     crashed = {b: (i, rc, err) for b, i, rc, err in res["crashed"]}
     todo = set(res["todo"])
@@ -309,10 +341,12 @@ def judge(ctx, br, res, stats):
                 if opt["backend"] == "c":
                     # ... and a std::string result reaches a C caller as char *: CppLibCalls!CView, cut at the NUL
                     want = W.c_view(want)
-                if st["op"] == "call" and st["fk"] == "setter":
+                if st["op"] == "call" and st["fk"] in ("setter", "opIndexRef"):
                     want, got = st["rb"], got.get("rb") if isinstance(got, dict) else got
-                    if st["data_kind"] == "objPtr":
+                    if st.get("data_kind") == "objPtr":
                         want = st["args"][0]
+                    if opt["backend"] == "c":
+                        want = W.c_view(want)
                 if got != want:
                     what = "returned %r, C++ returns %r" % (got, want)
                 elif r["post"] != e["post"]:
@@ -465,6 +499,14 @@ def run_check(ctx):
                                       "function); every constructor collides with the implicit copy constructor under one name, "
                                       "so no object can be constructed reliably.  -c -true-names needs -fptrs (it excludes "
                                       "-fnames): the static wrappers are reached through _in_fptrs[database wrapper index - 1]")
+    ctx.notes["isolation"] = ("libraries with constructs whose wrappers are known not to compile in some option set (array data "
+                              "members) are rendered into batches of their own (wraplib.lib_features), so that such a batch "
+                              "failing to compile is attributed to that input class and the other batches are replayed")
+    ctx.notes["not_c01"] = ("with -string a `const wchar_t *` parameter is recorded as atomic string while the C wrapper takes "
+                            "wchar_t const * (database vs code: C11); wide strings are not in the alphabet")
+    ctx.assumptions.append("the query interface does not expose the underlying type of an enumeration (enumerator values are "
+                           "reported as int): the -c driver sizes the two scoped enumerations of the generated header (EnC : "
+                           "char, EnL : long long) as declared there; every other C type is taken from the database")
     ctx.notes["nodb"] = ("every option set adds -nodb (the generated file then needs no dtool headers); the database is still "
                          "written with -od and is what drives every call")
     ctx.notes["destructors"] = ("neither back-end emits a destructor wrapper (InterfaceMaker::record_object never records "
